@@ -83,6 +83,10 @@ def regen_pins():
             # Gen/RegexSyntax.v (trusted restatement of the crate's PARSER) and the Captures / closure-replacer / HashMap
             # restatements of Gen/FmapRt.v, likewise
             rc, out, _ = sh([sys.executable, os.path.join(VERIF, "tools", "rx_syntax_examples.py")], timeout=1800)
+        if rc == 0:
+            # Model/Expr.v (hand model of the rhai matcher fragment: expr, eval, print_expr) is re-validated against the
+            # real rhai engine, configured as src/enforcer.rs configures it (coq/Gen/RhaiExamples.v)
+            rc, out, _ = sh([sys.executable, os.path.join(VERIF, "tools", "rhai_examples.py")], timeout=1800)
     if rc != 0:
         raise RuntimeError("pins.py failed: " + out)
 
